@@ -312,6 +312,31 @@ func inject(fs *vs.Stream, rec, other []byte, fields []field, format int, comple
 		apply("trailing-garbage", "-", append([]byte("\xef\xbb\xbf"), rec...))
 	}
 
+	// --- deep nesting in the binary formats (collections of one collection of ...)
+	// (one record in eight: re-encoding a 700-deep collection as GeoJSON takes
+	// ~0.2 s, MarshalJSON being quadratic in the nesting depth)
+	if (format == fWKB || format == fTWKB) && fs.Intn(8, "deepbin") == 0 {
+		for _, depth := range []int{64, 700} {
+			var x []byte
+			if format == fWKB {
+				for i := 0; i < depth; i++ {
+					x = append(x, 1, 7, 0, 0, 0, 1, 0, 0, 0)
+				}
+				pt := make([]byte, 21)
+				pt[0], pt[1] = 1, 1
+				x = append(x, pt...)
+				apply("deep-nesting", "-", x)
+				apply("deep-nesting", "-", x[:len(x)-21]) // cut after the innermost header
+			} else {
+				for i := 0; i < depth; i++ {
+					x = append(x, 0x07, 0x00, 0x01)
+				}
+				x = append(x, 0x01, 0x00, 0x02, 0x04)
+				apply("deep-nesting", "-", x)
+				apply("deep-nesting", "-", x[:len(x)-4])
+			}
+		}
+	}
 	// --- hex text: PostGIS hands WKB to text-mode clients as hex; a string
 	// scanner may meet it (whole, truncated to odd and even lengths, dirty)
 	if format == fWKB {
